@@ -1,7 +1,7 @@
 """C18: the events the tools list, the events the handlers accept and the events
 ovnidump can decode coincide, for every model (all printable three-character codes)."""
 import os, re, itertools, struct, json, subprocess
-from lib.common import Ctx, Build, Scratch, InfraError, pmap, VERIF
+from lib.common import Ctx, Build, Scratch, InfraError, pmap, VERIF, plan_of
 from lib import emusrv, catalog, obs
 from lib.emusrv import Ev, Fin, i32, i64, u32
 from lib.explore import ServerPool
@@ -90,6 +90,8 @@ def expected_description(decl, vals):
 
 def run(prop, tier):
     ctx = Ctx("C18", tier, "model_checking")
+    tier = plan_of("C18", tier)
+    ctx.cov["plan"] = tier
     scratch = Scratch("C18")
     try:
         build = Build()
